@@ -496,7 +496,7 @@ impl C13 {
                 let mut fired = 0;
                 for e in &events {
                     il = mix(il, ((e.thread as i64 as u64) << 8) ^ e.op as u64);
-                    ctx.out.ev_str(&format!("{}{}{} {} {}", e.thread, e.op, e.tok, e.asked, e.result));
+                    ctx.out.ev_str(&e.digest_text());
                     if e.thread != prev && prev != -2 {
                         switches += 1;
                     }
@@ -642,7 +642,7 @@ impl C13 {
                     let mut fired = 0;
                     let mut hard = false;
                     for e in &events {
-                        ctx.out.ev_str(&format!("{}{} {} {}", e.op, e.tok, e.asked, e.result));
+                        ctx.out.ev_str(&e.digest_text());
                         if let Some(name) = e.fault_name() {
                             ctx.out.fault(&name);
                             fired += 1;
@@ -723,7 +723,7 @@ impl C13 {
                         let mut fired = 0;
                         let mut hard = false;
                         for e in &events {
-                            ctx.out.ev_str(&format!("{}{} {} {}", e.op, e.tok, e.asked, e.result));
+                            ctx.out.ev_str(&e.digest_text());
                             if let Some(name) = e.fault_name() {
                                 ctx.out.fault(&name);
                                 fired += 1;
